@@ -205,6 +205,7 @@ def execute(sc):
         return res(sc, viol, nd, False)
     d2 = ((dl[:, None, :] - src_pts[None, :, :]) ** 2).sum(axis=2)
     dmin = d2.min(axis=1)
+    held = []        # what the consumer keeps of earlier steps: (step, the delivered array itself, a copy taken then)
     for k in range(sc["npub"]):
         coef = sc["coef"][k][: sl.shape[1] + 1]
         fs = coef[0] + sl @ np.array(coef[1:]) + 1000.0 * k
@@ -222,6 +223,18 @@ def execute(sc):
         except Exception as e:
             v("regrid-exception", type(e).__name__, f"publication {k}: {type(e).__name__}: {str(e)[:300]}; {short(sc)}")
             break
+        # a field delivered at an earlier step stays what it was (a consumer - or a buffering adapter downstream - that
+        # keeps it must not see later steps written into it)
+        for (k0, ref, cp) in held:
+            same_mask = np.array_equal(np.ma.getmaskarray(ref), np.ma.getmaskarray(cp))
+            keepm = ~np.ma.getmaskarray(cp)
+            if not same_mask or not np.array_equal(np.ma.getdata(ref)[keepm], np.ma.getdata(cp)[keepm]):
+                v("regrid-nearest" if sc["method"] == "nearest" else "regrid-linear", "overwritten",
+                  f"the field delivered for publication {k0} was changed when publication {k} was regridded; {short(sc)}")
+                break
+        if viol:
+            break
+        held.append((k, got, got.copy()))
         if got.shape != (1,) + tuple(dshape):
             v("regrid-shape", "shape", f"delivered shape {got.shape}, expected {(1,) + tuple(dshape)}")
             break
